@@ -32,6 +32,10 @@ def run(P, R, L):
     K.ord3_flush(P, R, L)
     R.clause("VERD-1", "a tombstone found in a memtable ends the lookup (otherwise a reader sees the put of a batch and the pre-batch value of the key it deleted)")
     K.verd1(P, R, L, what=("memtable", "dbget"))
+    R.clause("ITR-1", "backward collapse of the client iterator: records newer than the reader's sequence change no state (a tombstone of a later batch must not hide the older value)")
+    K.itr1_backward_collapse(P, R, L)
+    R.clause("ITR-2", "forward collapse of the client iterator: invisible records change no state")
+    K.itr2_forward_collapse(P, R, L)
     K.bundle_readpath(P, R, L)
     K.bundle_retention(P, R, L)
     K.bundle_liveness(P, R, L)
